@@ -8,6 +8,17 @@ end of the buffer) must coincide.  The extracted model (coq/InputQueue.v) is run
 programs: its expansion of P into the key stream that reaches the command interpreter must equal
 P' (the model knows nothing of the generator's bookkeeping: it records and pushes as term.c/vi.c do,
 with a syntax-directed tokenizer for command boundaries).
+
+Tokenizer correspondence (coq/ViKeys.v, requests `vitok` / `virun` of ocaml/drv_inq.ml): the extracted
+tokenizer + raw-key interpreter (next_command, vi_exec = ViDefs.exec1 after the tokenizer, run by the
+loop of InputQueue.v) is RUN on the raw key bytes of programs over the modelled command set.  For a
+sample of programs every prefix of the typed keys -- ending at a token boundary or INSIDE a token --
+followed by <ESC> i#%#<ESC> G"ap G"bp Gp :w! out must leave, on the real editor, the file the model
+computes for the same keys (at a boundary: the text after that many commands; inside a token: the
+pending keys are swallowed by ESC, or the insert ends there).  Programs with . / N. / @r / @@ are run
+whole (model against binary, and model(P) against model(retyped P)); the keys of C08's generated
+programs must be read by the tokenizer as exactly the commands C08's driver builds from their JSON form
+(`op` request of the vi model); `c` + a failing motion leaves the typed text to run as commands.
 """
 import json
 import vlib
@@ -96,6 +107,18 @@ def change_atom(rng, safe_only=False):
     return 'A ' + txt + ESC, 'insert'
 
 
+MOD_MOTIONS = ['j', 'k', 'w', 'b', '0', '$', 'l', 'h', '+', '-', '2G', '3G', '1G', 'e', '2w', '4G0', '5G', 'fa', ';', '^', '3|', 'W', 'B', 'E',
+               '}', '{', 'H', 'L', 'M', 'tb', 'Fe', ',', '_', '2l', 'G', '%', ' ', '\x7f']
+
+
+def mod_change_atom(rng):
+    """a change command inside the command set of coq/ViKeys.v (no ! filter, no search target)"""
+    while True:
+        k, kind = change_atom(rng)
+        if kind not in ('filter', 'd/'):
+            return k, kind
+
+
 def motion_atom(rng):
     return rng.choice(['j', 'k', 'w', 'b', '0', '$', 'l', 'h', '+', '-', '2G', '3G', '1G', 'e', '2w', '4G0', '5G', 'u', 'ma', "'a",
                        '/e\n', 'fa', ';', '^', '1G', '3|'])
@@ -160,7 +183,10 @@ def has_nested(case):
     return any(a[0] in ('dot', 'exec') for m in case['macros'].values() for a in m)
 
 
-def gen_case(rng, kind):
+def gen_case(rng, kind, modelled=False):
+    """modelled=True: only commands that coq/ViKeys.v tokenises and coq/ViDefs.v interprets"""
+    change_atom_ = mod_change_atom if modelled else change_atom
+    motion_atom_ = (lambda r: r.choice(MOD_MOTIONS)) if modelled else motion_atom
     macros = {}
     atoms = []
     nmac = 0 if kind == 'dot' else rng.choice([1, 1, 2])
@@ -169,14 +195,14 @@ def gen_case(rng, kind):
         for j in range(rng.choice([1, 2, 2, 3])):
             t = rng.below(10)
             if t < 6:
-                k = change_atom(rng)[0]
+                k = change_atom_(rng)[0]
                 while '\n' in k:
-                    k = change_atom(rng)[0]
+                    k = change_atom_(rng)[0]
                 body.append(['change', k])
             elif t < 8:
-                k = motion_atom(rng)
+                k = motion_atom_(rng)
                 while '\n' in k:
-                    k = motion_atom(rng)
+                    k = motion_atom_(rng)
                 body.append(['keys', k])
             elif kind == 'nested' and t == 8:
                 body.append(['dot', rng.choice([0, 0, 2])])
@@ -193,16 +219,18 @@ def gen_case(rng, kind):
     for j in range(n):
         t = rng.below(12)
         if t < 4 or not have:
-            atoms.append(['change', change_atom(rng)[0]])
+            atoms.append(['change', change_atom_(rng)[0]])
             have = True
         elif t < 6:
-            atoms.append(['keys', motion_atom(rng)])
+            atoms.append(['keys', motion_atom_(rng)])
         elif t < 9 or not macros:
             atoms.append(['dot', rng.choice([0, 0, 0, 2, 3, 4])])
             if rng.chance(1, 2):
-                atoms.append(['keys', motion_atom(rng)])
+                atoms.append(['keys', motion_atom_(rng)])
         elif t < 11:
             atoms.append(['exec', rng.choice([0, 0, 2, 3]), rng.choice(list(macros.keys()) + (['@'] if any(a[0] == 'exec' for a in atoms) else []))])
+        elif modelled:
+            atoms.append(['change', rng.choice(['"ayw', '"byy', 'yw', '"Ayw'])])      # yanks are members of the repeatable set
         else:
             atoms.append(['keys', rng.choice([':3y .\n', ':2y a\n', ':4y b\n', ':5y .\n'])])
     if not any(a[0] in ('dot', 'exec') for a in atoms):
@@ -361,6 +389,182 @@ def load_corpus():
             out.append(c)
     return out
 
+# ---------------------------------------------------------------------------------------------
+# the tokenizer of coq/ViKeys.v against the real editor
+
+TOK_ROWS = 24
+TOK_SUFFIX = ESC + 'i' + MARK + ESC + 'G"apG"bpGp'       # all inside the modelled command set
+TOK_FAILING_C = [   # `c` + a motion that fails: the typed text runs as commands
+    (['alpha beta gamma', 'second (line) here'], 'cfZxx' + ESC + 'w.'),
+    (['alpha beta gamma', 'second (line) here'], 'w"a2cTQjx' + ESC + 'p'),
+    (['alpha beta gamma', 'second (line) here'], 'c;llD' + ESC),
+    (['alpha beta gamma', 'second (line) here'], 'wc%0x' + ESC + 'jf(c%[]' + ESC + '.'),
+    (['alpha beta gamma', 'second (line) here'], 'c200%jdd' + ESC),
+    (['alpha beta gamma', 'second (line) here'], 'xcfZ.2.' + ESC + 'x'),
+]
+TOK_HAND = [       # every grammar position at least once
+    '"a3dw"b2yyj"ap"bP3J2rZ4~x2X', '2"adw3"byej"aPD"bp', 'd2fad3tex;d,', '2d3wyGggg~~3guuj2gUU>>3<<>j<k',
+    'cwnew' + ESC + 'w.2ccz' + ESC + 'j3sq' + ESC + 'SS S' + ESC + 'Cend' + ESC, 'ia\nb' + ESC + 'Ax\x08y\x17zz' + ESC + 'ofoo\x15bar' + ESC + 'O\x14t\x04' + ESC,
+    'iq\x16\x09w' + ESC + '"ayiw"aywi\x12a\x10' + ESC, 'rédfé2rZtéFd', 'mad\'ay`ax', "3\x1bd\x1bg\x1bgqf\x1br\x1b@\x1bx\"a\"bx3\"a4x",
+    '5|d0d^d$d_d+d-dHdMdLd{d}d%dhdld d\x7fdjdkdBdEdWdbdedw', 'y2jp3Gd2ku', ':3\ndd:1\nP',
+]
+
+
+def tok_file(text):
+    return ''.join(l + '\n' for l in text).encode('utf-8')
+
+
+def tok_real(exe, fileb, keys):
+    kb = keys + b':w! out\n:q!\n'
+    r = vlib.run_vi(exe, kb, files={'f': fileb}, args=['f'], readback=['out'], rows=TOK_ROWS, timeout=20)
+    if r.timed_out:
+        r = vlib.run_vi(exe, kb, files={'f': fileb}, args=['f'], readback=['out'], rows=TOK_ROWS, timeout=60)
+        if r.timed_out:
+            return 'hang'
+    if r.crashed() or r.files.get('out') is None:
+        r = vlib.run_vi(exe, kb, files={'f': fileb}, args=['f'], readback=['out'], rows=TOK_ROWS, timeout=20)
+        if r.crashed() or r.files.get('out') is None:
+            return 'crash rc=%s' % r.rc
+    return r.files['out']
+
+
+def tok_model_text(line):
+    """text of a `virun` answer; None = outside the model / clipped"""
+    w = line.split()
+    if len(w) < 5:
+        return None
+    return vlib.unhx(w[4])
+
+
+def tok_check(ctx, exe, model):
+    """the tokenizer correspondence (see the module docstring)"""
+    res, rng = ctx.res, ctx.rng
+    suffix = TOK_SUFFIX.encode('utf-8')
+    progs = []          # (file bytes, key bytes, kind, cut?)
+    for text, keys in TOK_FAILING_C:
+        progs.append((tok_file(text), keys.encode('utf-8'), 'failing-c', True))
+    for keys in TOK_HAND:
+        progs.append((tok_file(BASE), ('2Gw' + keys).encode('utf-8'), 'hand', True))
+    ncut = 14 if ctx.quick else 150
+    nwhole = 60 if ctx.quick else 1500
+    for i in range(ncut + nwhole):
+        c = gen_case(rng, rng.choice(['dot', 'macro', 'nested']), modelled=True)
+        p = setup_keys(c) + raw(c['atoms'])
+        if not ok_bytes(p):
+            continue
+        progs.append((file_of(c), p.encode('utf-8'), 'generated', i < ncut))
+    # 1. token boundaries
+    rc, tout, err = vlib.run_lines(model, ['vitok %d %s %s' % (TOK_ROWS - 1, vlib.hx(f), vlib.hx(k)) for f, k, _, _ in progs], timeout=900)
+    if rc != 0 or len(tout) != len(progs):
+        res.disagree({'what': 'model driver failed on vitok: rc=%s, %d answers for %d requests' % (rc, len(tout), len(progs)), 'stderr': err[-800:]})
+        return
+    runs = []           # (prog index, cut offset, kind of cut, key bytes)
+    kinds = {}
+    for i, ((f, k, kind, cut), line) in enumerate(zip(progs, tout)):
+        w = line.split()
+        status, letters, stat, dyn = w[0], w[1], w[2], w[3]
+        res.count('tokenizer: program ' + kind + ' ' + status)
+        for ch in letters if letters != '-' else '':
+            kinds[ch] = kinds.get(ch, 0) + 1
+        bounds = set(int(x) for x in dyn.split(',')) if dyn != '-' else set()
+        if kind == 'hand' and status == 'ok' and letters != '-' and 'd' not in letters and 'e' not in letters and stat != dyn:
+            res.disagree({'what': 'tokenizer: the boundaries of the syntactic tokenisation differ from those of the loop on a program without . and @',
+                          'input': k.decode('utf-8', 'replace'), 'model': [stat, dyn]})
+        runs.append((i, len(k), 'whole', k + suffix))
+        if cut:
+            cuts = list(range(1, len(k)))
+            inner = [p for p in cuts if p not in bounds]
+            if len(inner) > 24:
+                rng.shuffle(inner)
+                inner = inner[:24]
+            for p in sorted(set(inner) | (bounds & set(cuts))):
+                runs.append((i, p, 'boundary' if p in bounds else 'inside', k[:p] + suffix))
+    res.extra['tokenizer kinds'] = kinds
+    rc, mout, err = vlib.run_lines(model, ['virun %d %s %s' % (TOK_ROWS - 1, vlib.hx(progs[i][0]), vlib.hx(kb)) for i, _, _, kb in runs], timeout=1800)
+    if rc != 0 or len(mout) != len(runs):
+        res.disagree({'what': 'model driver failed on virun: rc=%s, %d answers for %d requests' % (rc, len(mout), len(runs)), 'stderr': err[-800:]})
+        return
+    todo = [j for j, m in enumerate(mout) if tok_model_text(m) is not None]
+    real = vlib.pmap(lambda j: tok_real(exe, progs[runs[j][0]][0], runs[j][3]), todo)
+    ndis = 0
+    for j, out in zip(todo, real):
+        i, p, ck, kb = runs[j]
+        res.evaluations += 1
+        res.count('tokenizer: cut ' + ck)
+        want = tok_model_text(mout[j])
+        if ck != 'whole' or progs[i][2] != 'generated':
+            res.nontriv(json.dumps(['tok', progs[i][1].decode('utf-8', 'replace'), p]))
+        if out != want:
+            ndis += 1
+            if ndis <= 5:
+                res.disagree({'what': 'tokenizer correspondence: after the first %d typed keys (%s) + ESC the file differs from the text of the raw-key model' % (p, ck),
+                              'input': {'file': progs[i][0].decode('utf-8', 'replace'), 'keys': progs[i][1].decode('utf-8', 'replace'), 'cut': p},
+                              'implementation': out if isinstance(out, str) else out.decode('utf-8', 'replace')[-500:],
+                              'model': want.decode('utf-8', 'replace')[-500:]})
+    for j, m in enumerate(mout):
+        if tok_model_text(m) is None:
+            res.count('tokenizer: cut skipped (model: ' + m.split()[0] + ')')
+    if ndis:
+        res.extra['tokenizer differences'] = ndis
+    # 2. the failing-c programs: the loop must have split the text into commands (more boundaries than a `c` + text would give)
+    for (f, k, kind, _), line in zip(progs, tout):
+        if kind == 'failing-c':
+            w = line.split()
+            nb = len(w[3].split(','))
+            if w[0] != 'ok' or nb < 4:
+                res.disagree({'what': 'tokenizer: c + failing motion not split into commands', 'input': k.decode('utf-8', 'replace'), 'model': line})
+    # 3. model(P) = model(retyped P) on generated programs with . / @ (the theorems, evaluated)
+    reqs, meta = [], []
+    for n in range(40 if ctx.quick else 600):
+        c = gen_case(rng, rng.choice(['dot', 'macro', 'nested']), modelled=True)
+        pk = setup_keys(c) + raw(c['atoms'])
+        qk = setup_keys(c) + Expander(c['macros']).atoms(c['atoms'])
+        if not ok_bytes(pk) or not ok_bytes(qk):
+            continue
+        for kk in (pk, qk):
+            reqs.append('virun %d %s %s' % (TOK_ROWS - 1, vlib.hx(file_of(c)), vlib.hx(kk.encode('utf-8'))))
+        meta.append((c, pk, qk))
+    rc, eout, err = vlib.run_lines(model, reqs, timeout=900)
+    if rc == 0 and len(eout) == len(reqs):
+        for n, (c, pk, qk) in enumerate(meta):
+            a, b = eout[2 * n], eout[2 * n + 1]
+            res.count('tokenizer: model P vs retyped ' + ('compared' if tok_model_text(a) is not None else 'skipped (' + a.split()[0] + ')'))
+            if tok_model_text(a) is not None and a != b:
+                res.disagree({'what': 'raw-key model: the program with ./@ and the retyped program end differently in the model', 'input': c, 'P': pk, 'retyped': qk,
+                              'model': [a[:300], b[:300]]})
+    else:
+        res.disagree({'what': 'model driver failed on virun (P vs retyped): rc=%s' % rc, 'stderr': err[-800:]})
+    # 4. the keys of C08's programs are read as the commands C08's driver builds from the JSON form
+    vimodel = ctx.model('vi')
+    if vimodel:
+        from props import c08
+        cases = []
+        for n in range(300 if ctx.quick else 5000):
+            text = c08.gen_case_text(rng)
+            prog = c08.gen_prog(rng, text)
+            if c08.has_pipe(prog):
+                continue
+            kb = c08.keys_of(prog)
+            if b'\x1a' in kb or b'\x00' in kb:
+                continue
+            cases.append((text, prog, kb))
+        rc1, o1, e1 = vlib.run_lines(vimodel, [c08.model_req(t, TOK_ROWS, p) for t, p, _ in cases], timeout=900)
+        rc2, o2, e2 = vlib.run_lines(model, ['virun %d %s %s' % (TOK_ROWS - 1, vlib.hx(t.encode('utf-8')), vlib.hx(kb)) for t, _, kb in cases], timeout=900)
+        if rc1 != 0 or rc2 != 0 or len(o1) != len(cases) or len(o2) != len(cases):
+            res.disagree({'what': 'model drivers failed on the C08 round trip: rc=%s/%s' % (rc1, rc2), 'stderr': (e1 + e2)[-800:]})
+        else:
+            nd = 0
+            for (t, prog, kb), a, b in zip(cases, o1, o2):
+                res.evaluations += 1
+                res.count('tokenizer: C08 program round trip')
+                if a != b and a != 'fuel':
+                    nd += 1
+                    if nd <= 3:
+                        res.disagree({'what': 'tokenizer: the keys of a C08 program are not read as the commands of its JSON form (ViDefs.exec_prog vs vi_session)',
+                                      'input': {'text': t, 'prog': prog, 'keys': kb.decode('utf-8', 'replace')}, 'model': [a[:300], b[:300]]})
+    else:
+        res.count('tokenizer: C08 round trip skipped (vi model not built)')
+
 
 def run(ctx):
     res = ctx.res
@@ -429,6 +633,8 @@ def run(ctx):
                            'expected': {'out': b if isinstance(b, str) else b.decode('utf-8', 'replace')[-600:]},
                            'observed': {'out': a if isinstance(a, str) else a.decode('utf-8', 'replace')[-600:]},
                            'replay_cmd': 'python3 tools/check.py C09 --replay <this file>'})
+    if model and not ctx.replay:
+        tok_check(ctx, exe, model)
     # capacity: the model's clip against the real queue: `x` then 5000. on a 6000-character line
     if mout is not None and not ctx.replay:
         pushes = int(mout[-1])
